@@ -130,6 +130,9 @@ func (e *Engine) verifyOnce(fc *FnContract, path string) (rep *FuncReport) {
 	e.verifying = fn
 	st := &State{Heaps: map[string]*smt.Term{}, Cells: map[*Cell]Val{}}
 	e.alloc0 = X.Var("alloc0", RefSort)
+	e.snapN = 0
+	e.snaps = nil
+	e.h0facts = map[int]bool{}
 	X.FreshBase[e.alloc0.ID()] = true
 	st.Alloc = e.alloc0
 	e.pc = X.True
@@ -171,6 +174,19 @@ func (e *Engine) verifyOnce(fc *FnContract, path string) (rep *FuncReport) {
 			v, st2 := e.evalSpec(fn.Pkg, of, args, st)
 			st = st2
 			olds[of] = v
+		}
+	}
+	// old-expressions of loop invariants too: their snapshots must live in the running state
+	e.preOlds = map[string]Val{}
+	for _, lp := range fc.C.Loops {
+		for _, cl := range lp.Invs {
+			for _, of := range cl.OldFn {
+				if _, ok := e.preOlds[of]; !ok {
+					v, st2 := e.evalSpec(fn.Pkg, of, args, st)
+					st = st2
+					e.preOlds[of] = v
+				}
+			}
 		}
 	}
 	// frame
